@@ -24,7 +24,10 @@ R2 `LoopOutputStep.run`: the expected count of an instance is `int(<last compone
    IterationTerminationToken's tag, stored under the tag's prefix; data tokens are appended under the
    same prefix; the emission test `len(token_map[prefix]) == size_map[prefix]` (equality, defaults that
    can never be equal) lies after the three-way branch, so it is evaluated whichever of {data token,
-   iteration termination} arrives last; the emitted token is `_process_output(prefix)`, persisted with
+   iteration termination} arrives last (an operand held in a temporary -- `n = len(token_map.get(prefix, []))` /
+   the collected list / the expected count -- is read through its single dominating reaching definition, and that
+   definition too must lie between every arrival and the next read: a count taken before the arrival is recorded
+   is reported as stale); the emitted token is `_process_output(prefix)`, persisted with
    the collected iterations as inputs and put on the output port.
 R3 observation only: `all(self.termination_map)` iterates the keys (dead decision, see DESIGN section 7).
 R4 `LoopCombinator._product`: the first combination of an instance creates the counter with 0 under
@@ -572,6 +575,27 @@ def _check_output(ctx, f, who, tagp, ret, o, on, sfx):
 # =========================================================================== R2
 
 
+def _operand_at(f, e, nid, depth: int = 3):
+    """(expression, CFG node where it is evaluated) of an operand used at CFG node `nid`: a local name with exactly one
+    reaching definition -- a plain assignment / walrus whose node dominates the use, so no re-binding lies in between --
+    stands for the assigned expression, evaluated at the definition.  Anything else is returned as it is."""
+    g = f.cfg
+    if isinstance(e, ast.NamedExpr):
+        e = e.value
+    while depth > 0 and isinstance(e, ast.Name) and nid is not None and scoped_binding(e) is None:
+        depth -= 1
+        ds = rdefs(f, e.id, nid, use=e)
+        if len(ds) != 1:
+            break
+        d = ds[0]
+        if d.kind not in ("assign", "walrus") or d.index is not None or d.value is None or d.nid is None:
+            break
+        if d.nid != nid and not g.dominates(d.nid, nid):
+            break
+        e, nid = d.value, d.nid
+    return e, nid
+
+
 def r2(ctx):
     p = ctx.prog
     require_members(ctx, LOS, ["run", "_process_output", "get_output_port", "_persist_token"], ["token_map", "size_map"])
@@ -635,33 +659,42 @@ def r2(ctx):
         ctx.ob("R2", "run: a data token is appended under its tag prefix in the data branch", is_prefix(K, n.id) and in_else, func=f, node=n.ast,
                instance="run:append:key", message=f"data token is filed under `{tag_canon(f, K, n.id)}`" + ("" if in_else else " outside the data branch"))
     # ---- emission test
+    # an operand of the comparison may be held in a temporary (`n = len(self.token_map.get(prefix, [])); if n == ...`):
+    # it is read through its reaching definition, and the node where it is *evaluated* is kept: the count must be
+    # taken after the arrival has been recorded, not merely compared after it (see "evaluated after" below)
     tests = []
     for t in g.nodes.values():
         if t.kind != "test":
             continue
         for cmp_, edge in test_compares(f, t):
-            sides = [cmp_.left, cmp_.comparators[0]]
             a = b = None
-            for s in sides:
+            evals = []
+            for s in (cmp_.left, cmp_.comparators[0]):
+                s, sn = _operand_at(f, s, t.id)
                 ln = builtin_call(f, s, "len")
-                if ln is not None and len(ln.args) == 1 and _self_map_key(ln.args[0], "token_map"):
-                    a = _self_map_key(ln.args[0], "token_map")
-                elif _self_map_key(s, "size_map"):
-                    b = _self_map_key(s, "size_map")
+                if ln is not None and len(ln.args) == 1:
+                    c, cn = _operand_at(f, ln.args[0], sn)
+                    if _self_map_key(c, "token_map"):
+                        a = _self_map_key(c, "token_map") + (cn,)
+                        evals += [sn, cn]
+                        continue
+                if _self_map_key(s, "size_map"):
+                    b = _self_map_key(s, "size_map") + (sn,)
+                    evals.append(sn)
             if a and b:
-                tests.append((t, a, b, edge))
+                tests.append((t, a, b, edge, sorted({n for n in evals if n != t.id})))
     ctx.ob("R2", "run: an emission test len(token_map[prefix]) == size_map[prefix] exists", bool(tests), func=f, node=f.node, instance="run:emit:exists",
            message="no emission test: the loop output is never produced inside the loop")
     procs = [n for n in g.nodes.values() if any(resolves_to(p, f, c, f"{LOS}._process_output") or (isinstance(c.func, ast.Attribute) and c.func.attr == "_process_output") for c in n.calls())]
-    for t, (ka, da), (kb, db), edge in tests:
+    for t, (ka, da, na), (kb, db, nb), edge, evals in tests:
         ok, msg = True, ""
         if edge.startswith("op:"):
             ok, msg = False, f"collected count is compared with `{edge[3:]}`: the output is emitted early / repeatedly"
-        elif not (is_prefix(ka, t.id) and is_prefix(kb, t.id)):
-            ok, msg = False, f"emission test reads token_map[{tag_canon(f, ka, t.id)}] and size_map[{tag_canon(f, kb, t.id)}] (expected the arrived token's prefix on both sides)"
+        elif not (is_prefix(ka, na) and is_prefix(kb, nb)):
+            ok, msg = False, f"emission test reads token_map[{tag_canon(f, ka, na)}] and size_map[{tag_canon(f, kb, nb)}] (expected the arrived token's prefix on both sides)"
         else:
-            dav = single_origin(f, da, t.id) if da is not None else None
-            dbv = const_value(single_origin(f, db, t.id) or db) if db is not None else NotImplemented
+            dav = single_origin(f, da, na) if da is not None else None
+            dbv = const_value(single_origin(f, db, nb) or db) if db is not None else NotImplemented
             a_empty = da is None or (isinstance(dav, (ast.List, ast.Tuple)) and not dav.elts) or is_const(dav, None)
             b_never = db is None or dbv is None or (isinstance(dbv, (int, float)) and not isinstance(dbv, bool) and dbv < 0)
             if da is not None and not a_empty:
@@ -673,9 +706,19 @@ def r2(ctx):
         for label, nodes in (("count", [s.id for s in size_stores]), ("data", [n.id for n, _k in apps])):
             for sid in nodes:
                 w = g.escape(sid, [t.id], targets=[getn.id, g.exit], kinds=NORMAL)
+                stale = None
+                if w is None:
+                    # operands held in temporaries: each is (re)computed between the arrival and the next read as well
+                    for ev in evals:
+                        w = g.escape(sid, [ev], targets=[getn.id, g.exit], kinds=NORMAL)
+                        if w is not None:
+                            stale = ev
+                            break
                 ctx.ob("R2", f"run: the emission test is evaluated after a {label} arrival", w is None, func=f, node=g.nodes[sid].ast,
-                       instance=f"run:emit:after-{label}", message=f"after recording the {label} the next token is read without testing for completion: "
-                       f"an instance whose {label} arrives last is never emitted", witness=g.describe(w) if w else [])
+                       instance=f"run:emit:after-{label}", message=(f"after recording the {label} the next token is read without testing for completion: "
+                       f"an instance whose {label} arrives last is never emitted" if stale is None else
+                       f"the operand `{g.nodes[stale].text()}` of the emission test is computed before the {label} is recorded: the test compares a stale "
+                       f"count, so an instance whose {label} arrives last is never emitted"), witness=g.describe(w) if w else [])
         # emission shape
         mine = [n for n in procs if only_via(g, t.id, fire_edge(edge), n.id)]
         ctx.ob("R2", "run: the emission branch calls _process_output", bool(mine), func=f, node=t.ast, instance="run:emit:process",
@@ -1159,6 +1202,19 @@ VARIANTS = [
     V("benign: run hoists the emission test into a local boolean", SFILE, _RUN,
       "        if len(self.token_map.get(prefix, [])) == self.size_map.get(prefix, -1):\n            self.get_output_port().put(",
       "        complete = len(self.token_map.get(prefix, [])) == self.size_map.get(prefix, -1)\n        if complete:\n            self.get_output_port().put(", None),
+    V("benign: run takes the collected count through a temporary (mechanical testtemp)", SFILE, _RUN,
+      "        if len(self.token_map.get(prefix, [])) == self.size_map.get(prefix, -1):",
+      "        _sf_l1 = len(self.token_map.get(prefix, []))\n        if _sf_l1 == self.size_map.get(prefix, -1):", None),
+    V("benign: run holds both operands of the emission test and the collected list in temporaries", SFILE, _RUN,
+      "        if len(self.token_map.get(prefix, [])) == self.size_map.get(prefix, -1):",
+      "        collected = self.token_map.get(prefix, [])\n        expected = self.size_map.get(prefix, -1)\n        have = len(collected)\n        if not expected != have:", None),
+    V("run: collected count taken into a temporary before the data token is recorded (stale operand)", SFILE, _RUN,
+      "            self.size_map[prefix] = int(token.tag.split('.')[-1])\n        else:\n            if logger.isEnabledFor(logging.DEBUG):\n"
+      "                logger.debug(f'Step {self.name} received token {token.tag}.')\n            if prefix not in self.token_map:\n                self.token_map[prefix] = []\n"
+      "            self.token_map[prefix].append(token)\n        if len(self.token_map.get(prefix, [])) == self.size_map.get(prefix, -1):",
+      "            self.size_map[prefix] = int(token.tag.split('.')[-1])\n        have = len(self.token_map.get(prefix, []))\n"
+      "        if not isinstance(token, (TerminationToken, IterationTerminationToken)):\n            if prefix not in self.token_map:\n                self.token_map[prefix] = []\n"
+      "            self.token_map[prefix].append(token)\n        if have == self.size_map.get(prefix, -1):", "R2"),
     V("benign: run collects with setdefault", SFILE, _RUN, "            if prefix not in self.token_map:\n                self.token_map[prefix] = []\n            self.token_map[prefix].append(token)", "            self.token_map.setdefault(prefix, []).append(token)", None),
     V("benign: Last via max() with the int key", WFILE, _LAST, "return sorted(self.token_map.get(tag, [Token(value=None)]), key=lambda t: int(t.tag.split('.')[-1]))[-1].retag(tag=tag)",
       "return max(self.token_map.get(tag, [Token(value=None)]), key=lambda t: int(t.tag.split('.')[-1])).retag(tag=tag)", None),
